@@ -123,10 +123,15 @@ func (cln *Client) Connect(uri string, msg *message.ConnectMessage) (err error) 
 		return err
 	}
 
-	p := topics.NewMemProvider()
-	topics.Register(cln.svc.sess.ID(), p)
+	// The registry of topics providers is process wide. The name must not
+	// clash with another client that uses the same client ID, nor with a
+	// provider such as "mem".
+	cln.svc.topicsName = fmt.Sprintf("client/%d/%s", cln.svc.id, cln.svc.sess.ID())
 
-	cln.svc.topicsMgr, err = topics.NewManager(cln.svc.sess.ID())
+	p := topics.NewMemProvider()
+	topics.Register(cln.svc.topicsName, p)
+
+	cln.svc.topicsMgr, err = topics.NewManager(cln.svc.topicsName)
 	if err != nil {
 		return err
 	}
@@ -206,10 +211,15 @@ func (cln *Client) ConnectTLS(uri string, msg *message.ConnectMessage, cfg *tls.
 		return err
 	}
 
-	p := topics.NewMemProvider()
-	topics.Register(cln.svc.sess.ID(), p)
+	// The registry of topics providers is process wide. The name must not
+	// clash with another client that uses the same client ID, nor with a
+	// provider such as "mem".
+	cln.svc.topicsName = fmt.Sprintf("client/%d/%s", cln.svc.id, cln.svc.sess.ID())
 
-	cln.svc.topicsMgr, err = topics.NewManager(cln.svc.sess.ID())
+	p := topics.NewMemProvider()
+	topics.Register(cln.svc.topicsName, p)
+
+	cln.svc.topicsMgr, err = topics.NewManager(cln.svc.topicsName)
 	if err != nil {
 		return err
 	}
